@@ -94,7 +94,7 @@ UNNAMED_ROLES = {}  # id(bundle) -> {"HOST": Role, ...} for bundles built with `
 def build_bundle_unnamed(h, tree, counter):
     """The same definition built procedurally with role objects straight from `HOST, DEVICE, OTHER = h.Roles(3)`: they
     have no names; which is which is a matter of the objects."""
-    host, device, other = h.Roles(3)
+    host, device, other = h.Roles(3) if counter[0] % 2 else 3 * h.Role()  # both spellings of "three new roles"
     b = h.Bundle(name=f"B{counter[0]}")
     UNNAMED_ROLES[id(b)] = {"HOST": host, "DEVICE": device, "OTHER": other}
     for name, kind, width in tree["leaves"]:
